@@ -188,7 +188,8 @@ def c03_cfg(run, v1, ed):
         for e in out:
             if e.target not in live:
                 pr.append(("C03/no-edge-to-a-removed-block", "from %#x" % b.address))
-        kinds = collections.Counter(e.label.type.name + ("_c" if e.label.conditional else "") for e in out)
+        # (the conditional flag distinguishes branches only: a fallthrough is a fallthrough whatever flags the input's edge carried)
+        kinds = collections.Counter(e.label.type.name + ("_c" if e.label.conditional and e.label.type != gtirb.EdgeType.Fallthrough else "") for e in out)
         nxt = None
         for c in blocks[idx + 1:]:
             if c.address == b.address + b.size:
